@@ -75,6 +75,7 @@ def run(res, programs, tier):
     for P in programs:
         cfgname = P.name
         if "dashu_float" in P.units:
+            _r16_5(res, P, cfgname)
             _r16_1a(res, P, cfgname)
             _r16_1b(res, P, cfgname)
         if "dashu_int" in P.units:
@@ -782,6 +783,38 @@ def _sccs(graph):
         if v not in index:
             strong(v)
     return out
+
+
+# ---------------------------------------------------------------------------------------------
+# R16.5  bounded work for tiny values.  Dropping the fractional digits of x = m * B^e (e < 0) through
+# shr_digits / split_digits materialises B^|e| for non-binary bases; the integer-rounding family therefore
+# answers |x| < 1 from the cheap `smaller_than_one()` estimate first.  Every such digit shift in
+# trunc / split_at_point / split_at_point_internal / Repr::to_int must be preceded by that test on every path.
+SHIFT_FNS = ("::shr_digits", "::split_digits", "::split_digits_ref", "::shr_digits_in_place")
+R16_5_SCOPE = ("round_ops::<impl dashu_float::fbig::FBig<R, B>>::trunc", "::split_at_point", "::split_at_point_internal",
+               "convert::<impl dashu_float::repr::Repr<B>>::to_int")
+
+
+def _r16_5(res, P, cfgname):
+    res.rule("R16.5", "the digit shifts of trunc / split_at_point(_internal) / Repr::to_int are preceded on every path by the smaller_than_one() shortcut (no B^|exponent| is built for a tiny value)")
+    n = 0
+    for f in P.fns("dashu_float"):
+        if not f.get("mir") or f.get("kind") == "Closure" or not f["p"].endswith(R16_5_SCOPE):
+            continue
+        calls = [(bb, (fr.get("rp") or fr["p"]), t) for bb, t, fr in mir.iter_calls(f["mir"]) if fr]
+        shifts = [(bb, c, t) for bb, c, t in calls if c.endswith(SHIFT_FNS)]
+        if not shifts:
+            continue
+        cfg = mir.cfg_of(f["mir"])
+        gb = {bb for bb, c, t in calls if c.endswith("::smaller_than_one")}
+        for bb, c, t in shifts:
+            n += 1
+            key = "%s %s" % (f["p"], c.rsplit("::", 1)[-1])
+            if gb and cfg.must_pass(gb, 0, {bb}):
+                res.ok("R16.5", cfgname, key, sample=dict(function=f["p"], shift=c.rsplit("::", 1)[-1], guard="smaller_than_one()"))
+            else:
+                res.fail("R16.5", cfgname, key, "%s reaches %s without the smaller_than_one() shortcut: for a value like 1e-50000000 the power B^|exponent| is computed before the digits are dropped (unbounded time / memory, or an allocation panic)" % (f["p"], c.rsplit("::", 1)[-1]), span_loc(t["sp"]))
+    res.floor("R16.5", cfgname, n, 4, "digit shifts in the integer-rounding family")
 
 
 LEVEL = LEVEL + ''
